@@ -13,6 +13,8 @@ FLOORS = {
     "enum:ok": 2000, "enum:err:nolabel": 200,
     "nonbranch_labelref": 3000, "name_variant_defined": 1200,
     "shape:empty": 20, "shape:no_instructions": 100, "shape:100+_instructions": 40,
+    # the same functions through the real pass.Compile (graph read off the function when the pipeline stops in the allocator)
+    "pipe:judged": 20000, "pipe:ok": 9000, "pipe:err": 4000, "pipe:pruned_something": 3000,
 }
 
 
@@ -73,6 +75,12 @@ def run(ctx):
         "functions of 100-400 instructions. Compared: (1) `cfg`: outcome of the real passes = outcome of the Lean model "
         "(error yes/no; Succ and Pred as sets of instruction indices), (2) `accept-cfg`: the outcome is judged by the proved acceptor "
         "acceptCFG with the control-flow class of every instruction derived from its OPCODE (JMP / J.. / RET), not from avo's flags. "
+        "(pipe) EVERY function of the three streams is additionally cloned, prefixed with 33 instructions that keep 17 general-purpose "
+        "virtual registers alive (so that the REAL pass.Compile stops with an error in AllocateRegisters, after Verify, "
+        "PruneJumpToFollowingLabel, PruneDanglingLabels, LabelTarget, CFG, ZeroExtend32BitOutputs and Liveness ran in their real order "
+        "and before PruneSelfMoves clears Succ/Pred) and run through pass.Compile; the node list as the pipeline left it and the graph "
+        "found on its instructions (instruction list taken from fn.Nodes, not from an accessor) are compared with the model and judged "
+        "by the acceptor exactly like the direct route: state left behind by an earlier pass of the pipeline is visible here. "
         "Only ok / err / panic is tied to the implementation: WHICH of the four errors avo reports (its message) is read for the "
         "sample-floor statistics only. A nil successor (fall off the end) is dropped on both sides; multiplicity and order of "
         "Succ/Pred are not compared. Sample floors per stream and per outcome are proof obligations of the run. "
